@@ -1,5 +1,4 @@
-import GohtVerif.Model.Render
-import GohtVerif.Model.Runtime
+import GohtVerif.Model.Exec
 /-! Line-protocol driver: one request per line, fields hex-encoded; one reply line per request. -/
 open GL
 
@@ -35,27 +34,6 @@ def doCompile (input : GoStr) : String := Id.run do
   let chk := (if allDisj disjS c.frags then "S" else "s") ++ (if allDisj disjT c.frags then "T" else "t")
   return s!"{showOutcome c.lexOutcome} {errS} {toHex c.text}X {sb}X {emitS} {chk}"
 
-/-- `R <filehex> <namehex> S:<k>=<v>,... B:<k>=<0|1>,... L:<k>=<v>|<v>,...`  (all hex) -/
-def parseEnv (fields : List String) : Env := Id.run do
-  let mut env : Env := {}
-  for f in fields do
-    if f.startsWith "S:" then
-      for kv in (f.drop 2).toString.splitOn "," do
-        match kv.splitOn "=" with
-        | [k, v] => env := { env with strs := env.strs ++ [(hx k, hx v)] }
-        | _ => pure ()
-    else if f.startsWith "B:" then
-      for kv in (f.drop 2).toString.splitOn "," do
-        match kv.splitOn "=" with
-        | [k, v] => env := { env with bools := env.bools ++ [(hx k, v == "1")] }
-        | _ => pure ()
-    else if f.startsWith "L:" then
-      for kv in (f.drop 2).toString.splitOn "," do
-        match kv.splitOn "=" with
-        | [k, v] => env := { env with lists := env.lists ++ [(hx k, (v.splitOn "|").filter (· != "-") |>.map hx)] }
-        | _ => pure ()
-  return env
-
 def splitNE (s : String) (sep : String) : List String := (s.splitOn sep).filter (· != "")
 /-- helper fields carry a leading underscore so that the empty string is a visible field -/
 def hxu (s : String) : GoStr := hx ((s.dropWhile (· == '_')).toString)
@@ -90,8 +68,51 @@ def doHelper (f : List String) : String :=
       | "cls" => { id := none, cls := some (hxu clsh) }
       | _ => { id := none, cls := none }
     let pfx := rest.head?.map hxu
-    if fn == "oid" then s!"ok {toHex (objectID o pfx)}" else s!"ok {toHex (objectClass o pfx)}"
+    if fn == "oid" then s!"ok {toHex (objectID o pfx)}"
+    else if fn == "oclsl" then showOpt (buildClassList [.str (objectClass o pfx)])
+    else s!"ok {toHex (objectClass o pfx)}"
   | _ => "BAD"
+
+def cut1 (s : String) (sep : Char) : String × String :=
+  let a := (s.takeWhile (· != sep)).toString
+  (a, (s.drop (a.length + 1)).toString)
+
+/-- environment table, one field per entry:
+`S:k=v` string, `E:k` failing fragment, `B:k=0|1`, `L:header=var=v1|v2|…`, `C:k=val;val…`, `A:k=val;val…`,
+`O:k=kind,id,cls,pfx` (all k/v hex with a leading underscore) -/
+def parseEnv (fields : List String) : Env := Id.run do
+  let mut env : Env := {}
+  for f in fields do
+    let (tag, rest) := cut1 f ':'
+    let (k, v) := cut1 rest '='
+    match tag with
+    | "S" => env := { env with strs := env.strs ++ [(hxu k, hxu v)] }
+    | "E" => env := { env with errs := env.errs ++ [hxu k] }
+    | "B" => env := { env with bools := env.bools ++ [(hxu k, v == "1")] }
+    | "L" =>
+      let (var, vals) := cut1 v '='
+      env := { env with loops := env.loops ++ [(hxu k, (hxu var, (splitNE vals "|").map hxu))] }
+    | "C" => env := { env with classes := env.classes ++ [(hxu k, (splitNE v ";").map parseVal)] }
+    | "A" => env := { env with attrs := env.attrs ++ [(hxu k, (splitNE v ";").map parseVal)] }
+    | "O" =>
+      match v.splitOn "," with
+      | [kind, idh, clsh, pf] =>
+        let o : Obj := match kind with
+          | "both" => { id := some (hxu idh), cls := some (hxu clsh) }
+          | "id" => { id := some (hxu idh), cls := none }
+          | "cls" => { id := none, cls := some (hxu clsh) }
+          | _ => { id := none, cls := none }
+        env := { env with objs := env.objs ++ [(hxu k, (o, if pf == "-" then none else some (hxu pf)))] }
+      | _ => pure ()
+    | _ => pure ()
+  return env
+
+def showRender (r : RenderObs) : String :=
+  match r.err with
+  | none => s!"OK {r.writes.length} {toHex r.writes.flatten}X"
+  | some (.expr f) => s!"ERR {r.writes.length} expr {toHex f}"
+  | some (.helper f) => s!"ERR {r.writes.length} helper {toHex f}"
+  | some (.model m) => s!"MODEL {m}"
 
 def handle (line : String) : String :=
   match line.trimAscii.toString.splitOn " " with
@@ -100,10 +121,7 @@ def handle (line : String) : String :=
   | ["C", input] => doCompile (hx input)
   | ["C"] => doCompile []
   | "H" :: rest => doHelper rest
-  | "R" :: file :: name :: rest =>
-    match renderTop (hx file) (hx name) (parseEnv rest) with
-    | .ok b => s!"OK {toHex b}X"
-    | .error e => s!"ERR {e}"
+  | "R" :: file :: name :: rest => showRender (renderTop (hx file) (hx name) (parseEnv rest))
   | _ => "BAD"
 
 partial def loop (h : IO.FS.Stream) (out : IO.FS.Stream) : IO Unit := do
